@@ -807,8 +807,10 @@ def force_clean(sb, snap0):
 
 HOOK_BUILTIN = "verif_hook"            # via "mock": a builtin the instructor mocked in
 HOOK_DATA = "verif_data_hook"          # via "data": an instructor function placed in the student namespace
+WAIT_BUILTIN = "verif_wait"            # see "wait_abandoned"
 HOOK_PROMPT = "verif:"                 # via "input": the callable given to set_input, keyed by the prompt
 ALLOWED_TIME = 300                     # threaded executions here end by themselves; the time limit is C14's
+DECOY_PROGRAM = "print('another report, a healthy program')\nvalue = 41 + 1\n"
 
 
 def has_inner(op):
@@ -823,8 +825,33 @@ def walk_ops(ops):
             yield from walk_ops(op["inner"])
 
 
-def _invoke(sb, op, main, kw):
+class _SandboxApi:
+    """run / call / evaluate / set_input / clear_input / get_sandbox as METHODS of one Sandbox object (the `commands`
+    module offers the same names as functions on a report)."""
+
+    def __init__(self, sb):
+        self.sb = sb
+        self.run, self.call, self.evaluate = sb.run, sb.call, sb.evaluate
+        self.set_input, self.clear_input = sb.set_input, sb.clear_input
+
+    def get_sandbox(self):
+        return self.sb
+
+
+class _ReportApi:
+    """The module-level commands with `report=<the graded report>` passed to every one of them."""
+
+    def __init__(self, report):
+        import functools
+        for name in ("run", "call", "evaluate", "set_input", "clear_input", "get_sandbox"):
+            setattr(self, name, functools.partial(getattr(commands, name), report=report))
+
+
+def _invoke(sb, op, main, kw, api=None):
     """The API call of one op.  -> (returned value, what escaped)."""
+    commands = api or globals()["commands"]
+    if op.get("timeout"):
+        kw["threaded"] = True
     call_args = [eval(src, {}) for src in op["argsrc"]] if "argsrc" in op else op.get("args", [])
     call_kwargs = {k: eval(src, {}) for k, src in op.get("kwargsrc", {}).items()}
     mode = op.get("threaded")
@@ -836,7 +863,8 @@ def _invoke(sb, op, main, kw):
         if op["entry"] == "run":
             spell = op.get("spell", "bare")
             if spell == "explicit":
-                return commands.run(op["code"], filename=main, **kw), None
+                # (`exec_code` / `exec_file`: the text that is executed is not the text stored for that file name)
+                return commands.run(op.get("exec_code", op["code"]), filename=op.get("exec_file", main), **kw), None
             if spell == "byname":
                 return commands.run(filename=main, **kw), None
             return commands.run(**kw), None
@@ -849,6 +877,23 @@ def _invoke(sb, op, main, kw):
         return commands.evaluate(op["expr"], **{k: v for k, v in kw.items() if k == "threaded"}), None
     except BaseException as e:       # noqa - the whole point is to see what escapes
         return None, e
+
+
+def _abandoned_threads():
+    import threading
+    from pedal.sandbox.timeout import InterruptableThread
+    return [t for t in threading.enumerate() if isinstance(t, InterruptableThread)
+            and t is not threading.current_thread() and t.is_alive()]
+
+
+def wait_for_abandoned(known=(), patience=8.0):
+    """A timed-out execution leaves its thread behind; it is given the time to end (it was sent SystemExit) before
+    anything else is looked at, so that what it does WHILE ending is seen by this history, not by a later one."""
+    deadline = time.monotonic() + patience
+    for t in _abandoned_threads():
+        if t in known:
+            continue
+        t.join(max(0.0, deadline - time.monotonic()))
 
 
 def _observe(sb, op, o, ret, escaped, n_before, ctx):
@@ -868,7 +913,17 @@ def _observe(sb, op, o, ret, escaped, n_before, ctx):
         o["outcome"] = "esc:student" if safe_type_name(escaped) == student_cls else "esc:internal"
         o["escaped"] = safe_type_name(escaped)
         o["rk"] = "-"
-    new = MAIN_REPORT.feedback[n_before:]
+    new = ctx.get("report", MAIN_REPORT).feedback[n_before:]
+    stray = []
+    for name, rep_, n0, sb_ in ctx.get("bystanders", ()):
+        for f in rep_.feedback[n0:]:
+            stray.append([name, str(f.category).lower(), f.label])
+        del rep_.feedback[n0:]
+        if sb_ is not None and unwrap(sb_.exception) is not None:
+            stray.append([name, "sandbox.exception", safe_type_name(unwrap(sb_.exception))])
+            sb_.exception = None
+    if ctx.get("bystanders"):
+        o["stray"] = stray
     fbs, fbs_all, other = [], [], 0
     for f in new:
         if str(f.category).lower() == "runtime":
@@ -894,15 +949,19 @@ def _perform_inner(sb, op, ctx):
     if op.get("style") is not None:
         saved_tracer = (sb._tracer_style, sb.trace)
         sb.tracer_style = op["style"]
-    n_before = len(MAIN_REPORT.feedback)
+    n_before = len(ctx.get("report", MAIN_REPORT).feedback)
     dp0, do0 = len(sb._current_patches), len(sb._current_stdout)
+    known = _abandoned_threads() if op.get("timeout") else ()
+    if op.get("timeout"):
+        sb.allowed_time = op["timeout"]
     before = Snapshot()
     patcher = None
     if op.get("inject"):
         patcher = unittest.mock.patch.object(sandbox_module, "ExpandedTraceback", _boom)
         patcher.start()
     try:
-        ret, escaped = _invoke(sb, dict(op, spell="explicit") if op["entry"] == "run" else op, ctx["main"], {})
+        ret, escaped = _invoke(sb, dict(op, spell="explicit") if op["entry"] == "run" else op, ctx["main"], {},
+                               ctx.get("api"))
     finally:
         if patcher is not None:
             patcher.stop()
@@ -912,6 +971,15 @@ def _perform_inner(sb, op, ctx):
     o = before.compare(after)
     o["dp"] = len(sb._current_patches) - dp0
     o["do"] = len(sb._current_stdout) - do0
+    if op.get("timeout"):
+        # the abandoned thread ends while the ENCLOSING execution is still in progress: what it does then counts too
+        sb.allowed_time = ALLOWED_TIME
+        wait_for_abandoned(known)
+        later = before.compare(Snapshot())
+        for k in later:
+            o[k] = o[k] and later[k]
+        o["dp"] = o["dp"] or (len(sb._current_patches) - dp0)
+        o["do"] = o["do"] or (len(sb._current_stdout) - do0)
     _observe(sb, op, o, ret, escaped, n_before, ctx)
     return o, escaped
 
@@ -999,14 +1067,41 @@ def _run_history(ops):
     threading.excepthook = lambda args: None      # a worker thread ended by KeyboardInterrupt & co. is not news
     clear_report()
     contextualize_report("", filename=MAIN_FILE)
-    sb = commands.get_sandbox()
+    # WHICH REPORT is graded: MAIN_REPORT through the module-level commands (default); "own" = a Report of its own
+    # through the commands with report=...; "sandbox" = a Sandbox(report=...) object of its own through its methods.
+    # In the last two MAIN_REPORT and a third report are alive beside it, each holding a healthy decoy program that
+    # has been run: they must not gain anything (`stray`).
+    which = ops[0].get("report") if ops else None
+    api, report, bystanders = commands, MAIN_REPORT, []
+    if which:
+        from pedal.core.report import Report
+        report, third = Report(), Report()
+        for decoy_report in (MAIN_REPORT, third):
+            # (a tree on which even this healthy run fails - the grader on an odd thread - shows that in the ops of
+            # the histories made for it; here the decoy is only scenery)
+            contextualize_report(DECOY_PROGRAM, filename=MAIN_FILE, report=decoy_report)
+            snap0 = Snapshot()
+            try:
+                commands.run(report=decoy_report)
+            except BaseException:       # noqa
+                pass
+            decoy_sb = commands.get_sandbox(report=decoy_report)
+            if decoy_sb._current_patches or decoy_sb._current_stdout or sys.stdout is not snap0.stdout:
+                force_clean(decoy_sb, snap0)
+        contextualize_report("", filename=MAIN_FILE, report=report)
+        api = _SandboxApi(Sandbox(report=report)) if which == "sandbox" else _ReportApi(report)
+        bystanders = [["MAIN_REPORT", MAIN_REPORT, len(MAIN_REPORT.feedback), commands.get_sandbox()],
+                      ["a third report", third, len(third.feedback), commands.get_sandbox(report=third)]]
+    sb = api.get_sandbox()
     obs = []
-    old_format = MAIN_REPORT.format
+    old_format = report.format
     fmt = ops[0].get("fmt") if ops else None
     if fmt:
         from pedal.core import formatting
-        MAIN_REPORT.set_formatter({"html": formatting.HtmlFormatter, "text": formatting.TextFormatter}[fmt](MAIN_REPORT))
-    ctx = {"registry": {}, "inner_obs": {}, "claimed": set(), "main": MAIN_FILE}
+        report.set_formatter({"html": formatting.HtmlFormatter, "text": formatting.TextFormatter}[fmt](report))
+    ctx = {"registry": {}, "inner_obs": {}, "claimed": set(), "main": MAIN_FILE, "report": report,
+           "api": api if which else None, "bystanders": bystanders}
+    commands_ = api
     try:
         for op in ops:
             main = op.get("main", MAIN_FILE)
@@ -1016,20 +1111,21 @@ def _run_history(ops):
                     files = {main: op["code"]}
                     if op.get("helper") is not None:
                         files[HELPER_FILE] = op["helper"]
-                    contextualize_report(Submission(files=files, main_file=main), clear=False)
+                    contextualize_report(Submission(files=files, main_file=main), clear=False, report=report)
                 else:
-                    contextualize_report(op["code"], filename=MAIN_FILE, clear=False)
-            sb = commands.get_sandbox()
+                    contextualize_report(op["code"], filename=MAIN_FILE, clear=False, report=report)
+            sb = commands_.get_sandbox()
             sb.tracer_style = op["style"]
             sb.threaded = op.get("threaded") in ("sandbox", "import")
-            sb.allowed_time = ALLOWED_TIME
-            n_before = len(MAIN_REPORT.feedback)
+            sb.allowed_time = op.get("timeout") or ALLOWED_TIME
+            known = _abandoned_threads() if op.get("timeout") else ()
+            n_before = len(report.feedback)
             kw = {}
             if op.get("inputs") is not None:
                 if op.get("inputs_via") == "param" and op["entry"] in ("run", "call"):
                     kw["inputs"] = list(op["inputs"])
                 else:
-                    commands.set_input(list(op["inputs"]))
+                    commands_.set_input(list(op["inputs"]))
             hooked = has_inner(op)
             if hooked:
                 ctx["registry"] = {o2["hid"]: o2 for o2 in walk_ops([op]) if has_inner(o2)}
@@ -1038,8 +1134,12 @@ def _run_history(ops):
                 sb.mock_function(HOOK_BUILTIN, hook)
                 sb.data[HOOK_DATA] = hook
                 if any(o2.get("via") == "input" for o2 in walk_ops([op])):
-                    commands.clear_input()
+                    commands_.clear_input()
                     sb.set_input(input_hook)
+            if op.get("wait_abandoned"):
+                # the student code of this op calls it once it has released the abandoned thread of an earlier op:
+                # that thread then ends WHILE this execution is in progress
+                sb.mock_function(WAIT_BUILTIN, lambda *a, **k: wait_for_abandoned())
             if op.get("group") in ("start", "both"):
                 sb.start_grouping_context()
             sys.settrace(_dummy_trace if op.get("pretrace", True) else None)
@@ -1054,21 +1154,31 @@ def _run_history(ops):
                                                      op["inject_store"], _boom_store)
                 patcher.start()
             try:
-                ret, escaped = _invoke(sb, op, main, kw)
+                ret, escaped = _invoke(sb, op, main, kw, ctx["api"])
             finally:
                 if patcher is not None:
                     patcher.stop()
             after = Snapshot()
             sys.settrace(None)
             sb.threaded = False
+            if op.get("timeout"):
+                sb.allowed_time = ALLOWED_TIME
+                if not op.get("leave_thread"):      # (its code waits for a later execution to release it)
+                    wait_for_abandoned(known)
+                else:                               # ... once it has dealt with the SystemExit it was sent
+                    deadline = time.monotonic() + 8.0
+                    while sb.data.get("phase") != "survived" and time.monotonic() < deadline:
+                        real_sleep(0.005)
+            if op.get("wait_abandoned"):
+                sb.clear_mocked_function(WAIT_BUILTIN)
             if hooked:
                 sb.clear_mocked_function(HOOK_BUILTIN)
                 sb.data.pop(HOOK_DATA, None)
-                commands.clear_input()
+                commands_.clear_input()
             if op.get("group") in ("stop", "both") and sb._context_group_start:
                 sb.stop_grouping_context()
             if op.get("inputs") is not None:
-                commands.clear_input()
+                commands_.clear_input()
             o = before.compare(after)
             o["dp"] = len(sb._current_patches)
             o["do"] = len(sb._current_stdout)
@@ -1081,9 +1191,12 @@ def _run_history(ops):
         sys.settrace(old_trace)
         sys.stdout, time.sleep = real_stdout, real_sleep
         del sb._context_group_start[:]
-        MAIN_REPORT.format = old_format
+        report.format = old_format
         threading.excepthook = old_excepthook
         sb.threaded = False
+        if any(op.get("leave_thread") for op in ops):
+            sb.data["phase"] = "go"
+            wait_for_abandoned()
         stop_leftover_coverage()
         sys.settrace(old_trace)
     return obs
@@ -1297,6 +1410,8 @@ def student_line(d):
 
 
 SKIPPED = {}     # oracle clauses not applied, per reason (reported in the evidence)
+REPORT_TEXT = {"own": "second = Report(); commands.run/call/evaluate(..., report=second)",
+               "sandbox": "second = Report(); Sandbox(report=second).run/call/evaluate(...)"}
 
 
 def where_tag(op, level):
@@ -1320,6 +1435,12 @@ def how_text(op, level):
                      "import": "only the imports threaded"}[op["threaded"]])
     if op.get("on"):
         bits.append("the grader running on " + GRADER_THREAD_TEXT.get(op["on"], op["on"]))
+    if op.get("report"):
+        bits.append("graded report: " + REPORT_TEXT.get(op["report"], op["report"]))
+    if op.get("exec_code") is not None:
+        bits.append("run(code, filename=%r) with a text of %d line(s) where %d '\\n'-line(s) are stored under that name"
+                    % (op.get("exec_file", op.get("main", MAIN_FILE)), len(op["exec_code"].split("\n")),
+                       len((op.get("helper") if op.get("exec_file") == HELPER_FILE else op["code"]).split("\n"))))
     if level:
         bits.append("started while another execution on the same sandbox was in progress (depth %d)" % (level + 1))
     elif has_inner(op):
@@ -1344,6 +1465,14 @@ def _oracle_c04(op, o):
         return None
     t = op["term"]
     shape = op["shape"]
+    if o.get("stray"):
+        # "attached to the report": the report that is being graded, and no other report that happens to be alive
+        name, category, label = o["stray"][0]
+        return {"c04": "feedback-on-another-report", "report": op.get("report"),
+                "shape": shape if t[0] != "N" else "normal-termination"}, \
+            "%s() on a report of its own (%s) changed %s, which holds another, healthy submission: %s %s%s" % (
+                op["entry"], REPORT_TEXT.get(op.get("report"), op.get("report")), name, category, label,
+                "" if len(o["stray"]) == 1 else " (+%d more)" % (len(o["stray"]) - 1))
     if t[0] == "N":
         nshape = shape if shape in ("normal-imports-helper",) else "normal-termination"
         if o["outcome"] != "ret":
@@ -1405,6 +1534,8 @@ def oracle_c05(op, o, level=0):
                                         ("systemexit" if t[1]["isSystemExit"] else "baseexception"))
     if t[0] == "C":
         how = "compile-" + how
+    if op.get("timeout"):
+        how = "timeout"         # the execution was given up on after `allowed_time`; its thread ended later
     sig = {"c05": "leak", "what": leaked}
     if leaked == ["trace"]:
         sig["style"] = op["style"]
